@@ -6,6 +6,10 @@ props = [json.loads(l) for l in open(os.path.join(V, "properties.jsonl"))]
 NOTE = ("Trusted: Coq 8.16.1 kernel + vm_compute; no axioms (Print Assumptions: closed under the global context for every theorem in the property file); "
         "translator gstrans; the Go harness, its generators and canonicalisers; ./check. ")
 C = {
+ "C07": ("proof", "5.7", "rocq-order",
+   "Kernel-checked for all lists and permutations: collect-then-sort, first-match over a table whose matching entries agree, map building from distinct keys and set membership do not depend on iteration order; every map-range site of generator/, diff and codescan (typed inventory regenerated with go/packages on every run) is in a proven pattern or in a reviewed table (C07_sites), and the media-type table (regenerated) is unambiguous on a catalogue of media types. PARTIAL: pattern recognition is syntactic and trusted; byte-identity of whole outputs and data-race freedom are exercised: every command repeated in fresh processes on a wide input, K concurrent library generations under the race detector.",
+   "proof of loop patterns (Coq 8.16) + regenerated typed site inventory + N-run / -race oracle",
+   "Modelled: map loops as folds over permutations. Trusted: the syntactic classifier. Exercised only: Go memory model / race freedom, whole-output byte identity."),
  "C09": ("proof", "5.9", "rocq-text",
    "Kernel-checked for all strings: padComment keeps text inside // comments, blockComment output never contains '*/', a backtick-escaped text evaluates (as the Go compiler would) to the text itself; and every template site printing a free-text field (inventory regenerated from the templates on every run) pairs its lexical context with a safe helper (C09_sites, finite, vm_compute). Helpers are tied to the code by a correspondence run through the generator's own FuncMap; the property itself is tested by rendering hostile text at every free-text position and comparing go/parser ASTs with a neutral rendering.",
    "proof (Coq 8.16) + regenerated site inventory + hostile-vs-neutral AST oracle",
@@ -43,6 +47,7 @@ ENG = {
  "rocq-diff": ("/verif/coq (Tools/Diff*.v) + /verif/harness/cmd/diffcheck", "Coq 8.16 model + theorems of the diff analyser; Go correspondence/oracle harness"),
  "rocq-text": ("/verif/coq (Tools/Escape*.v, Gen/GenTextSites.v) + /verif/harness/cmd/textcheck", "Coq 8.16 model of the text helpers and Go lexical contexts; site-inventory translator; rendering oracles"),
  "rocq-yaml": ("/verif/coq (Tools/Decimal.v) + /verif/harness/cmd/yamlcheck", "Coq 8.16 integer-text theorems; CLI differential harness over scalar classes"),
+ "rocq-order": ("/verif/coq (Tools/Order*.v, Gen/GenRangeSites.v, Gen/GenMediaTable.v) + /verif/harness/cmd/{rangesites,detcheck}", "Coq 8.16 permutation-invariance lemmas; go/types site inventory; N-run and -race harness"),
  "rocq-fs": ("/verif/coq (Tools/Regen*.v) + /verif/harness/cmd/regencheck", "Coq 8.16 file-system history machine; real-history harness"),
 }
 extra = os.path.join(V, "tools", "manifest_extra.json")
